@@ -26,7 +26,7 @@ CHECKS["C02"] = dict(
     text="For every instruction class of every flavour and every register-bank assignment, the bytes produced by the real encoder on "
          "symbolic operands equal, bit for bit, the bytes of an independent reference encoder written from the layout sentence and "
          "the pinned wire table; reference-encoded bytes are read back by the real decoder as the intended operands; the header and "
-         "re-serialisation after an app-id change are included. Decided by z3 for all operand values; N<=2 (thorough N<=3) commands.",
+         "re-serialisation after an app-id change are included. Decided by z3 for all operand values; N<=2 (thorough N<=5) commands.",
     note="Trusted: z3; vf/cmodel.py (validated against real ctypes every run); spec/wire_table.json as the published table (transcribed "
          "from the pinned commit, the repository has no machine-readable table); replays use real ctypes.",
     design="3/C02")
@@ -58,7 +58,7 @@ CHECKS["C04"] = dict(
     text="The real Executor.execute_subroutine runs from a symbolic initial state (register/array contents and immediates are z3 "
          "integers; operand aliasing, definedness, array lengths, unit-module occupancy and branch targets are forked exhaustively) "
          "and z3 decides on every path that registers, arrays, shared memory, unit module, fault/no-fault and the faulting line equal "
-         "the reference semantics. (a) every core classical instruction from an arbitrary state; (b) all 2-slot programs over 22 forms "
+         "the reference semantics. (a) every core classical instruction from an arbitrary state; (b2) qubit life cycles: 6 qalloc/qfree steps over three virtual IDs in one or two subroutines, with distinct reserved physical addresses as an obligation; (b) all 2-slot programs over 22 forms "
          "with arbitrary jump targets, and two subroutines back to back. Bounded: step bound 12, program length 2 (thorough 3-4).",
     note="Trusted: z3; vf/refsem.py (independent reference, DESIGN appendix B); harness Executor subclass that concretises index-like "
          "values before list indexing. Behaviour the statement does not name (negative index, undefined compare) is assumed away.",
@@ -206,7 +206,7 @@ CHECKS["C19"] = dict(
          "simplification steps, partitioned by the first two exponents over the cores) ends with z3 deciding 1<=n<=255, 0<=d<=255 and "
          "|sum n/2^d - r/pi| <= tol. Exhaustive for tol in [1e-4, 0.1] (quick) / [2.5e-5, 0.1] (thorough); below that only slices: single-step "
          "slices at 1e-9 (exhaustive; they also decide that only steps the format cannot hold are dropped) and time-boxed, non-exhaustive "
-         "'hunting' slices at 1e-7..1e-6 that need four steps. The builder is checked to emit one rotation per step (symbolic steps). Counterexamples are replayed with real "
+         "'hunting' slices at 1e-7..1e-6 that need four steps. The builder is checked to emit one rotation per step (symbolic steps), and, for two rotations on one connection whose angles are 2^-40 .. 9e-5 apart, to request the decomposition of each angle exactly and emit each rotation's own steps. Counterexamples are replayed with real "
          "floats on the unstubbed function.",
     note="Trusted: z3; the binary64 model of vf/symreal.py (exact power-of-two scaling, Sterbenz subtraction, floor/log2 contracts with "
          "2^-50 slack). 'Within tolerance' is read as the implementation applies it (to angle/pi). At most 8 loop iterations (checked).",
@@ -228,7 +228,7 @@ CHECKS["C03"] = dict(
     engine="symx",
     technique="SMT (z3 LIA): source program interpreted directly vs. really-assembled Subroutine interpreted by the reference semantics, literals and memory symbolic; structural clause as z3 equalities",
     text="~1000 (program, route) pairs: every register-or-literal variant of 26 classical/array/allocation instruction forms with labels "
-         "before / after / consecutive / past the end, seeded 2- and 3-command programs with forward and backward jumps, register-pressure "
+         "before / after / consecutive / past the end, seeded 2- and 3-command (thorough: also 4-command) programs with forward and backward jumps, register-pressure "
          "programs, through assemble_subroutine on IR objects and through parse_text_subroutine on printed text with macros, comments and "
          "bracketed arguments. Literal values and initial registers / arrays are z3 integers; z3 decides per path equal termination and "
          "fault reason, equal source-named registers, arrays and returned values, and that the source sequence is preserved.",
